@@ -7,12 +7,15 @@ package main
 // transform occurs anywhere in it (then the statement does not speak about the input and the case is not judged).
 
 import (
+	"encoding/json"
 	"fmt"
 	"reflect"
 	"regexp"
 
+	"github.com/kaptinlin/gozod"
 	"github.com/kaptinlin/gozod/core"
 	"github.com/kaptinlin/gozod/types"
+	lib "github.com/kaptinlin/jsonschema"
 
 	"verifharness/hx"
 	"verifharness/storex"
@@ -42,6 +45,11 @@ func (sg *sgen) leaf() node {
 	r := sg.r
 	str := func(g *storex.GraphGen) any { return hx.Pick(g.R, storex.StrPool) }
 	num := func(g *storex.GraphGen) any { return g.R.Intn(9) - 2 }
+	if r.Chance(22) {
+		if n, ok := sg.stateLeaf(); ok {
+			return n
+		}
+	}
 	switch r.Intn(20) {
 	case 0, 1:
 		return node{"String", "leaf", types.String(), false, str}
@@ -97,6 +105,161 @@ func (sg *sgen) leaf() node {
 	default:
 		return node{"Number", "leaf", types.Number(), false, func(g *storex.GraphGen) any { return hx.Pick(g.R, []float64{0, 1.5, -2}) }}
 	}
+}
+
+// compositeTypes are the Go types of the reference-typed values a schema is made to hold (literal / enum members,
+// JSON Schema const / enum / default values): none of them comparable with ==, top level never a pointer.
+var compositeTypes = []reflect.Type{
+	reflect.TypeOf([]any{}), reflect.TypeOf(map[string]any{}), reflect.TypeOf([]any{}), reflect.TypeOf(map[string]any{}),
+	reflect.TypeOf([]string{}), reflect.TypeOf([]storex.Rule{}), reflect.TypeOf(map[string][]int{}),
+	reflect.TypeOf([2][]string{}), storex.TRule, storex.TTag, reflect.TypeOf([]map[string]any{}),
+}
+
+// composite builds, from a seed, a non-nil composite value; calling it again with the same seed gives an equal value
+// made of different cells (what a caller builds when it decodes the same document twice).
+func composite(seed uint64) any {
+	g := storex.NewGraphGen(hx.NewRng(seed))
+	t := compositeTypes[int(seed%uint64(len(compositeTypes)))]
+	for try := 0; ; try++ {
+		g.Reset()
+		v := g.Value(t, 3)
+		switch v.Kind() {
+		case reflect.Slice, reflect.Map:
+			if v.IsNil() || (v.Len() == 0 && try < 20) {
+				continue
+			}
+		}
+		return v.Interface()
+	}
+}
+
+// jsonComposite is a composite made of what encoding/json decodes to ([]any, map[string]any, float64, string, bool, nil).
+func jsonComposite(r *hx.Rng, d int) any {
+	if d <= 0 {
+		return hx.Pick(r, []any{"a", "x", 1.0, 2.5, true, nil, "1.0"})
+	}
+	if r.Bool() {
+		n := 1 + r.Intn(3)
+		xs := make([]any, n)
+		for i := range xs {
+			xs[i] = jsonComposite(r, d-1-r.Intn(2))
+		}
+		return xs
+	}
+	m := map[string]any{}
+	for i := 0; i < 1+r.Intn(3); i++ {
+		m[hx.Pick(r, []string{"a", "b", "k", "1"})] = jsonComposite(r, d-1-r.Intn(2))
+	}
+	return m
+}
+
+func fromJSON(doc map[string]any) any {
+	b, err := json.Marshal(doc)
+	if err != nil {
+		return nil
+	}
+	sch, err := lib.NewCompiler().Compile(b)
+	if err != nil {
+		return nil
+	}
+	z, err := gozod.FromJSONSchema(sch)
+	if err != nil || z == nil {
+		return nil
+	}
+	return z
+}
+
+func decodeAgain(v any) any {
+	b, _ := json.Marshal(v)
+	var out any
+	_ = json.Unmarshal(b, &out)
+	return out
+}
+
+// stateLeaf: schemas that HOLD reference-typed values other than a default / prefault — members of a literal or of a
+// union of literals (Literal[any], LiteralOf[any], LiteralTyped, what FromJSONSchema builds for a composite const /
+// enum), an enum over `any`, and the schemas derived from them (the clones share `Def`). Their inputs are equal values
+// made of other cells, sometimes a different value.
+func (sg *sgen) stateLeaf() (node, bool) {
+	r := sg.r
+	seed := r.Next()
+	other := r.Next()
+	mkIn := func(mk func(uint64) any) func(g *storex.GraphGen) any {
+		return func(g *storex.GraphGen) any {
+			if g.R.Chance(15) {
+				return mk(other)
+			}
+			return mk(seed)
+		}
+	}
+	var n node
+	p := hx.Safely(func() {
+		switch r.Intn(9) {
+		case 0:
+			n = node{"Literal[any](composite)", "leaf", types.Literal[any](composite(seed)), false, mkIn(composite)}
+		case 1:
+			n = node{"LiteralOf[any](composite,s,composite)", "leaf", types.LiteralOf[any]([]any{composite(seed), "s", composite(other)}), false,
+				func(g *storex.GraphGen) any { return hx.Pick(g.R, []any{composite(seed), composite(other), "s", "t"}) }}
+		case 2:
+			n = node{"LiteralTyped[any,any](composite)", "leaf", types.LiteralTyped[any, any](composite(seed)), false, mkIn(composite)}
+		case 3:
+			n = node{"Literal[any](composite).Optional", "leaf", types.Literal[any](composite(seed)).Optional(), false, func(g *storex.GraphGen) any {
+				if g.R.Chance(15) {
+					return nil
+				}
+				return composite(seed)
+			}}
+		case 4:
+			n = node{"Literal[any](composite).RefineAny", "leaf", types.Literal[any](composite(seed)).RefineAny(func(any) bool { return true }), false, mkIn(composite)}
+		case 5:
+			n = node{"Literal[any](composite).Default(composite)", "leaf", types.Literal[any](composite(seed)).Default(composite(seed)), false, func(g *storex.GraphGen) any {
+				if g.R.Chance(25) {
+					return nil
+				}
+				return composite(seed)
+			}}
+		case 6:
+			c := jsonComposite(hx.NewRng(seed), 2)
+			s := fromJSON(map[string]any{"const": c})
+			if s == nil {
+				return
+			}
+			n = node{"FromJSONSchema{const:composite}", "leaf", s, false, func(g *storex.GraphGen) any {
+				if g.R.Chance(15) {
+					return jsonComposite(hx.NewRng(other), 2)
+				}
+				return decodeAgain(c)
+			}}
+		case 7:
+			c1, c2 := jsonComposite(hx.NewRng(seed), 2), jsonComposite(hx.NewRng(other), 2)
+			s := fromJSON(map[string]any{"enum": []any{c1, "a", 1, c2}})
+			if s == nil {
+				return
+			}
+			n = node{"FromJSONSchema{enum:[composite,a,1,composite]}", "leaf", s, false, func(g *storex.GraphGen) any {
+				return hx.Pick(g.R, []any{decodeAgain(c1), decodeAgain(c2), "a", 1.0, "zz"})
+			}}
+		default:
+			c := jsonComposite(hx.NewRng(seed), 2)
+			s := fromJSON(map[string]any{"type": []any{"array", "object"}, "default": c})
+			if s == nil {
+				return
+			}
+			n = node{"FromJSONSchema{default:composite}", "leaf", s, false, func(g *storex.GraphGen) any {
+				if g.R.Chance(40) {
+					return nil
+				}
+				return decodeAgain(c)
+			}}
+		}
+	})
+	if p != "" || n.s == nil {
+		return node{}, false
+	}
+	if _, ok := zs(n.s); !ok {
+		return node{}, false
+	}
+	return n, true
 }
 
 // typedFrom turns []any / map[string]any whose members all have one Go type into the typed container (half the time).
